@@ -153,3 +153,12 @@ def run(res, facts, tier):
     from . import c10_lookup
     c10_lookup.run_rule(res, facts, tier)
     c10_lookup.run_select_rule(res, facts, tier)
+
+
+_run_c10_prev_nomatch = run
+
+
+def run(res, facts, tier):
+    _run_c10_prev_nomatch(res, facts, tier)
+    from . import c10_builtin
+    c10_builtin.run_nomatch_rule(res, facts, tier)
